@@ -20,7 +20,10 @@
                  a refund mints; a bridge-call refund goes through the erc20 module's alias conversion and ends as base
                  coins (call created by MsgBridgeCall) or as ERC-20 tokens (call created by the bridgeCall precompile).
      ledger key = (account, token, which) with which = 0 base denom, 1 bridge denom (always 0 for KNative),
-     2 ERC-20 balance (KCoin only); account -1 is the crosschain module, -2 the erc20 module.
+       KErc    = an externally owned ERC-20 registered through x/erc20 RegisterNativeERC20 with the bridge denom as alias
+                 (the production path of MsgRegisterERC20): users hold ERC-20 tokens; the erc20 module escrows them while
+                 base coins exist; base <-> bridge conversion as for KExt.
+     2 ERC-20 balance (KCoin, KErc); account -1 is the crosschain module, -2 the erc20 module.
    * uint64 arithmetic of CalExternalTimeoutHeight is written out modulo 2^64.
    * comparison operators of the time-out rules come from gen/Gen_TimeoutRules.v (read from the source
      on every run). *)
@@ -35,7 +38,7 @@ Definition MODULE : Z := -1.
 
 Definition ERC20MOD : Z := -2.
 
-Inductive tkind := KNative | KExt | KCoin.
+Inductive tkind := KNative | KExt | KCoin | KErc.
 
 Record tx := { tx_id : Z; tx_sender : Z; tx_dest : Z; tx_token : Z; tx_amount : Z; tx_fee : Z }.
 Record batch := { b_nonce : Z; b_timeout : Z; b_txs : list tx; b_token : Z; b_feercv : Z; b_block : Z }.
@@ -82,6 +85,7 @@ Inductive op :=
 | SendP (sender dest amount fee token : Z)
 | Cancel (id who : Z)
 | IncreaseFee (id who add token which : Z)
+| IncreaseFeeP (id who add token : Z)
 | RequestBatch (token which feercv basefee minfee : Z) (auth : bool)
 | BatchExecuted (token nonce h : Z)
 | Observe (h : Z)
@@ -135,6 +139,7 @@ Definition base_to_bridge (l : ledger) (k : tkind) (holder t amt : Z) : R ledger
   | KNative => do l1 <- debit l (holder, t, 0) amt; ROk (credit l1 (MODULE, t, 0) amt)
   | KExt => do l1 <- debit l (holder, t, 0) amt; ROk (credit l1 (MODULE, t, 1) amt)
   | KCoin => do l1 <- debit l (holder, t, 0) amt; debit l1 (MODULE, t, 1) amt
+  | KErc => do l1 <- debit l (holder, t, 0) amt; ROk (credit l1 (MODULE, t, 1) amt)
   end.
 (* many_to_one.go BridgeTokenToBaseCoin (DepositBridgeToken + ConversionCoin), net effect *)
 Definition bridge_to_base (l : ledger) (k : tkind) (holder t amt : Z) : R ledger :=
@@ -142,12 +147,14 @@ Definition bridge_to_base (l : ledger) (k : tkind) (holder t amt : Z) : R ledger
   | KNative => do l1 <- debit l (MODULE, t, 0) amt; ROk (credit l1 (holder, t, 0) amt)
   | KExt => do l1 <- debit l (MODULE, t, 1) amt; ROk (credit l1 (holder, t, 0) amt)
   | KCoin => ROk (credit (credit l (MODULE, t, 1) amt) (holder, t, 0) amt)
+  | KErc => do l1 <- debit l (MODULE, t, 1) amt; ROk (credit l1 (holder, t, 0) amt)
   end.
 (* batch_fee.go AddUnbatchedTxBridgeFee: origin/converted denom is locked in the module, any other is burnt *)
 Definition pay_added_fee (l : ledger) (k : tkind) (payer t amt : Z) : R ledger :=
   match k with
   | KNative => do l1 <- debit l (payer, t, 0) amt; ROk (credit l1 (MODULE, t, 0) amt)
   | KExt | KCoin => debit l (payer, t, 1) amt
+  | KErc => do l1 <- debit l (payer, t, 1) amt; ROk (credit l1 (MODULE, t, 1) amt)   (* alias of an externally owned ERC-20 counts as origin: locked *)
   end.
 (* bridge_call_in.go bridgeCallTransferCoins + bridgeCallTransferTokens as used by HandleOutgoingBridgeCallRefund;
    [msg] = the call carries the from-msg marker (created by MsgBridgeCall): the refund stays in the bank; otherwise
@@ -168,6 +175,13 @@ Fixpoint refund_coins (ts : list (Z * tkind)) (msg : bool) (l : ledger) (refund 
                    let l1 := credit l (ERC20MOD, t, 1) amt in
                    if msg then refund_coins ts msg (credit l1 (refund, t, 0) amt) refund r
                    else refund_coins ts msg (credit (credit l1 (ERC20MOD, t, 0) amt) (refund, t, 2) amt) refund r
+               | KErc =>
+                   (* unlocked from the module (origin denom), then the erc20 module's alias conversion (old path) burns the alias and wants
+                      to release base coins it has locked: it has none unless somebody converted base -> alias there *)
+                   do l0 <- debit l (MODULE, t, 1) amt;
+                   do l1 <- debit l0 (ERC20MOD, t, 0) amt;
+                   if msg then refund_coins ts msg (credit l1 (refund, t, 0) amt) refund r
+                   else do l2 <- debit l1 (ERC20MOD, t, 2) amt; refund_coins ts msg (credit l2 (refund, t, 2) amt) refund r
                end
       end
   end.
@@ -330,6 +344,17 @@ Definition do_send (s : state) (sender dest amount fee token : Z) : R (state * l
       ROk (set_pool (set_bal s1 l) p, [EvTxCreated id])
   end.
 
+(* precompile handlerERC20Token / EvmToBaseCoin: the caller's ERC-20 tokens become base coins of the caller.
+   module-owned pair: tokens burnt, the erc20 module releases the locked base coins; externally owned pair: tokens escrowed
+   by the erc20 module, base coins minted *)
+Definition erc20_in (l : ledger) (k : tkind) (holder t a : Z) : R ledger :=
+  match k with
+  | KCoin => do l1 <- debit l (holder, t, 2) a; do l2 <- debit l1 (ERC20MOD, t, 0) a; ROk (credit l2 (holder, t, 0) a)
+  | KErc => do l1 <- debit l (holder, t, 2) a; ROk (credit (credit l1 (ERC20MOD, t, 2) a) (holder, t, 0) a)
+  | _ => RErr
+  end.
+Definition erc20_kind (k : tkind) : bool := match k with KCoin | KErc => true | _ => false end.
+
 (* x/crosschain/precompile/crosschain.go (target = this module): msg.value of FX (origin token: no relation), or an
    ERC-20 token of a registered coin (handlerERC20Token: transferFrom to the erc20 module, burn, base coins released to
    the caller), then AddToOutgoingPool and, for the ERC-20 case, erc20 SetOutgoingTransferRelation(module, id).
@@ -343,10 +368,10 @@ Definition do_send_p (s : state) (sender dest amount fee token : Z) : R (state *
       do l <- base_to_bridge (bal s1) KNative sender token (amount + fee);
       do p <- add_unbatched (mk_tx id sender dest token amount fee) (pool s1);
       ROk (set_pool (set_bal s1 l) p, [EvTxCreated id])
-  | Some KCoin =>
-      do l0 <- debit (bal s1) (sender, token, 2) (amount + fee);
-      do l1 <- debit l0 (ERC20MOD, token, 0) (amount + fee);
-      do l <- base_to_bridge (credit l1 (sender, token, 0) (amount + fee)) KCoin sender token (amount + fee);
+  | Some k =>
+      if negb (erc20_kind k) then RErr else
+      do l0 <- erc20_in (bal s1) k sender token (amount + fee);
+      do l <- base_to_bridge l0 k sender token (amount + fee);
       do p <- add_unbatched (mk_tx id sender dest token amount fee) (pool s1);
       ROk (set_relation (set_pool (set_bal s1 l) p) (id :: relation s1), [EvTxCreated id])
   | _ => RErr
@@ -356,6 +381,7 @@ Definition do_send_p (s : state) (sender dest amount fee token : Z) : R (state *
 Definition hook_refund (l : ledger) (k : tkind) (who t amt : Z) : R ledger :=
   match k with
   | KCoin => do l1 <- debit l (who, t, 0) amt; ROk (credit (credit l1 (ERC20MOD, t, 0) amt) (who, t, 2) amt)
+  | KErc => do l1 <- debit l (who, t, 0) amt; do l2 <- debit l1 (ERC20MOD, t, 2) amt; ROk (credit l2 (who, t, 2) amt)
   | _ => RErr
   end.
 
@@ -392,7 +418,7 @@ Definition do_increase (s : state) (id who add token which : Z) : R (state * lis
       match kind_of (toks s) token with
       | None => RErr
       | Some k =>
-          if (match k with KExt | KCoin => which =? 0 | KNative => false end) then RErr    (* GetContractByBridgeDenom *)
+          if (match k with KExt | KCoin | KErc => which =? 0 | KNative => false end) then RErr    (* GetContractByBridgeDenom *)
           else if negb (tx_token x =? token) then RErr
           else
             do l <- pay_added_fee (bal s) k who token add;
@@ -402,13 +428,42 @@ Definition do_increase (s : state) (id who add token which : Z) : R (state * lis
       end
   end.
 
+(* x/crosschain/precompile/increase_bridge_fee.go: the added fee comes as FX msg.value or as ERC-20 tokens; it is turned into
+   base coins (erc20_in), then into the bridge denom by the erc20 module's alias conversion (ConvertDenomToTarget, old path:
+   a module-owned pair burns the base coins and pays the alias out of the erc20 module's own alias holdings; an externally
+   owned pair keeps the base coins locked in the erc20 module and mints the alias), then AddUnbatchedTxBridgeFee *)
+Definition fee_in (l : ledger) (k : tkind) (who t add : Z) : R ledger :=
+  match k with
+  | KNative => pay_added_fee l KNative who t add
+  | KCoin => do l1 <- erc20_in l KCoin who t add; do l2 <- debit l1 (who, t, 0) add; do l3 <- debit l2 (ERC20MOD, t, 1) add;
+             pay_added_fee (credit l3 (who, t, 1) add) KCoin who t add
+  | KErc => do l1 <- erc20_in l KErc who t add; do l2 <- debit l1 (who, t, 0) add;
+            pay_added_fee (credit (credit l2 (ERC20MOD, t, 0) add) (who, t, 1) add) KErc who t add
+  | KExt => RErr
+  end.
+Definition do_increase_p (s : state) (id who add token : Z) : R (state * list event) :=
+  if (id <? 1) || (add <=? 0) then RErr else
+  match kind_of (toks s) token with
+  | None => RErr
+  | Some k =>
+      do l <- fee_in (bal s) k who token add;
+      match find_by_id id (pool s) with
+      | None => RErr
+      | Some x =>
+          if negb (tx_token x =? token) then RErr else
+          do p <- remove_unbatched x (pool s);
+          do p2 <- add_unbatched (mk_tx (tx_id x) (tx_sender x) (tx_dest x) (tx_token x) (tx_amount x) (tx_fee x + add)) p;
+          ROk (set_pool (set_bal s l) p2, [])
+      end
+  end.
+
 (* MsgRequestBatch.ValidateBasic + MsgServer.RequestBatch + BuildOutgoingTxBatch + StoreBatch *)
 Definition do_request_batch (s : state) (token which feercv basefee minfee : Z) (auth : bool) : R (state * list event) :=
   if (minfee <=? 0) || (basefee <? 0) then RErr else
   match kind_of (toks s) token with
   | None => RErr
   | Some k =>
-      if (match k with KExt | KCoin => which =? 0 | KNative => false end) then RErr else
+      if (match k with KExt | KCoin | KErc => which =? 0 | KNative => false end) then RErr else
       if negb auth then RErr else
       let max := p_max_elems (prm s) in
       if max =? 0 then RErr else
@@ -513,11 +568,10 @@ Fixpoint erc20_to_base (ts : list (Z * tkind)) (l : ledger) (holder : Z) (tokens
   | [] => ROk l
   | (t, a) :: r =>
       match kind_of ts t with
-      | Some KCoin =>
+      | Some k =>
           if a <=? 0 then RErr else
-          do l1 <- debit l (holder, t, 2) a; do l2 <- debit l1 (ERC20MOD, t, 0) a;
-          erc20_to_base ts (credit l2 (holder, t, 0) a) holder r
-      | _ => RErr
+          do l1 <- erc20_in l k holder t a; erc20_to_base ts l1 holder r
+      | None => RErr
       end
   end.
 Definition do_bridge_call_p (s : state) (sender refund value : Z) (tokens : list (Z * Z)) (to : Z) (data memo : list Z) : R (state * list event) :=
@@ -544,6 +598,7 @@ Definition exec (s : state) (o : op) : R (state * list event) :=
   | SendP sender dest amount fee token => do_send_p s sender dest amount fee token
   | Cancel id who => do_cancel s id who
   | IncreaseFee id who add token which => do_increase s id who add token which
+  | IncreaseFeeP id who add token => do_increase_p s id who add token
   | RequestBatch token which feercv basefee minfee auth => do_request_batch s token which feercv basefee minfee auth
   | BatchExecuted token nonce h => do_batch_executed s token nonce h
   | Observe h => do_observe s h
